@@ -5,6 +5,7 @@ import (
 	"fmt"
 	"math/big"
 	"math/rand"
+	"regexp"
 	"sort"
 	"time"
 
@@ -475,7 +476,14 @@ func (e *lvEnv) project() M {
 func (e *lvEnv) obs() M {
 	locked := M{}
 	for _, n := range e.names {
-		locked[n] = bigStr(e.App.BankKeeper.LockedCoins(e.Ctx, e.keys[n].Addr).AmountOf(lvND))
+		locked[n] = func() (res string) {
+			defer func() {
+				if r := recover(); r != nil {
+					res = fmt.Sprintf("panic: %v", r)
+				}
+			}()
+			return bigStr(e.App.BankKeeper.LockedCoins(e.Ctx, e.keys[n].Addr).AmountOf(lvND))
+		}()
 	}
 	return M{"locked": locked}
 }
@@ -555,6 +563,17 @@ func lvRandomCfg(r *rand.Rand, seed int64) *lvCfg {
 	return cfg
 }
 
+// lvLockedUp reads the locked-up amount of a vesting account; a broken account record (a changed tree
+// may write one) makes the getter panic, which must not kill the driver
+func lvLockedUp(va *vestingtypes.ClawbackVestingAccount, at time.Time) (res sdkmath.Int) {
+	defer func() {
+		if r := recover(); r != nil {
+			res = sdkmath.NewInt(3)
+		}
+	}()
+	return va.GetLockedUpCoins(at).AmountOf(lvND)
+}
+
 func (e *lvEnv) randomStep(r *rand.Rand) lvStep {
 	t := e.now()
 	switch r.Intn(5) {
@@ -612,7 +631,7 @@ func (e *lvEnv) randomStep(r *rand.Rand) lvStep {
 		var cands []string
 		for _, n := range e.names {
 			if va, ok := e.App.AccountKeeper.GetAccount(e.Ctx, e.keys[n].Addr).(*vestingtypes.ClawbackVestingAccount); ok {
-				if va.GetLockedUpCoins(at).AmountOf(lvND).IsPositive() || r.Intn(8) == 0 {
+				if lvLockedUp(va, at).IsPositive() || r.Intn(8) == 0 {
 					cands = append(cands, n)
 				}
 			}
@@ -622,7 +641,7 @@ func (e *lvEnv) randomStep(r *rand.Rand) lvStep {
 		if len(cands) > 0 && r.Intn(10) != 0 {
 			from = cands[r.Intn(len(cands))]
 			va := e.App.AccountKeeper.GetAccount(e.Ctx, e.keys[from].Addr).(*vestingtypes.ClawbackVestingAccount)
-			locked := va.GetLockedUpCoins(at).AmountOf(lvND)
+			locked := lvLockedUp(va, at)
 			amt = frac(locked)
 			if minLiq := lvAmt(e.cfg.MinLiq); amt.LT(minLiq) && locked.GTE(minLiq) && r.Intn(6) != 0 {
 				amt = minLiq.Add(sdkmath.NewIntFromBigInt(lvRandBig(r, locked.Sub(minLiq).BigInt())))
@@ -670,6 +689,8 @@ func (e *lvEnv) randomStep(r *rand.Rand) lvStep {
 
 // ---------------------------------------------------------------------------
 
+var lvPtrRe = regexp.MustCompile(`\{\d{6,}\}`)
+
 func lvMain(args []string) error {
 	fs := flag.NewFlagSet("liquidvesting", flag.ExitOnError)
 	scripts := fs.String("scripts", "", "JSON file: array of {cfg, steps} (history) or {cases} (pure)")
@@ -699,6 +720,9 @@ func lvMain(args []string) error {
 	}
 	emitStep := func(e *lvEnv, st lvStep) {
 		ok, es := e.step(st)
+		// Liquidate formats its minimum-amount error with %d of a math.Int struct, i.e. prints a heap
+		// address: masked so that the same seed gives a byte-identical trace
+		es = lvPtrRe.ReplaceAllString(es, "{ptr}")
 		tw.Emit(M{"ev": st.Ev, "args": st.Args, "ok": ok, "err": es, "post": e.project(), "obs": e.obs(), "scn": scn})
 	}
 
